@@ -383,10 +383,6 @@ void add_message (object_t * who, char *data) {
       ip->message_length++;
     }
 
-  /* snoop handling. */
-  if (ip->snoop_by)
-    receive_snoop (data, ip->snoop_by->ob);
-
 #ifdef FLUSH_OUTPUT_IMMEDIATELY
   flush_message (ip);
 #else
@@ -402,6 +398,12 @@ void add_message (object_t * who, char *data) {
 #endif
 
   add_message_calls++;
+
+  /* snoop handling. This is the last thing done here: receive_snoop() runs LPC code,
+   * which can destruct `who' (ip is freed and its socket closed then) or raise an error.
+   */
+  if (ip->snoop_by)
+    receive_snoop (data, ip->snoop_by->ob);
 }				/* add_message() */
 
 
